@@ -84,9 +84,25 @@ class World:
         return self.obj[oid]
 
 
+def warm(obj):
+    """read the derived public attributes once (results are not judged here): a later in-place step must not leave any
+    of them stale (seeded changes C01-3, C06-1, C15-2 all cached a derived quantity)"""
+    try:
+        if hasattr(obj, "mesh") and hasattr(obj, "nvdim"):
+            obj.norm, obj.mean()
+            obj = obj.mesh
+        if hasattr(obj, "region") and hasattr(obj, "subregions"):
+            obj.cell, obj.dV, len(obj), obj.cells, obj.vertices
+            obj = obj.region
+        obj.edges, obj.center, obj.volume
+    except Exception:
+        pass
+
+
 def call(df, emb, obj, st):
     """perform the public call described by step record st on obj; returns the return value (may raise)"""
     kind, args, ip = st["kind"], st["args"], st["inplace"]
+    warm(obj)
     nd = obj.region.ndim if isinstance(obj, df.Mesh) else (obj.mesh.region.ndim if isinstance(obj, df.Field) else obj.ndim)
     dims = DIMS[:nd]
     if kind == "translate":
@@ -145,7 +161,8 @@ def observe(df, obj):
                 "dims": tuple(obj.dims)}
     if isinstance(obj, df.Mesh):
         return {"k": "mesh", "n": tuple(int(v) for v in obj.n), "region": observe(df, obj.region),
-                "sub": [observe(df, s) for s in obj.subregions.values()], "subnames": tuple(obj.subregions)}
+                "sub": [observe(df, s) for s in obj.subregions.values()], "subnames": tuple(obj.subregions),
+                "cell": [float(v) for v in obj.cell]}
     arr = np.asarray(obj.array)
     nd = obj.mesh.region.ndim
     vd = obj.vdims
@@ -181,6 +198,14 @@ def compare(emb, want, got, path="", scale_q=None):
         if tuple(want["n"]) != tuple(got["n"]):
             out.append((path + ".n", f"n {got['n']} instead of {want['n']}"))
         out += compare(emb, want["region"], got["region"], path + ".region")
+        if "cell" in got and len(got["cell"]) == len(got["n"]):
+            # C13: "cell*n equal to the region edges" - with the cell size the mesh reports NOW
+            r = got["region"]
+            for d, (c, k) in enumerate(zip(got["cell"], got["n"])):
+                edge = r["hi"][d] - r["lo"][d]
+                if not abs(c * k - edge) <= 1e-9 * abs(edge) + 1e-300:
+                    out.append((path + ".cell", f"cell*n = {c * k} differs from the region edge {edge} along axis {d}"))
+                    break
         if len(want["sub"]) != len(got["sub"]):
             out.append((path + ".sub", f"{len(got['sub'])} subregions instead of {len(want['sub'])}"))
         else:
